@@ -81,7 +81,7 @@ theorem generate_spec (w : World) (hw : WorldOK w) (p : Proxy) (hp : ProxyOK p) 
           | none => simp
           | some ca =>
             simp only
-            have hgood := authorised_good hw (hp id hv) hpa hca (pa.auth.authz id.sa id.ns) names
+            have hgood := authorised_good hw (hp id hv) hpa hca (pa.authz id.sa id.ns) names
             have := genLoop_spec w rq pa ca _ { cache := c } hc hgood
             constructor
             · simp [this.1]
@@ -191,7 +191,7 @@ theorem spec_sound {w : World} {p : Proxy} {names : List Str} {req : Option Push
                 have hrn := (parse_some hp).1
                 rw [hrn] at h1
                 subst h1
-                exact ⟨id, sr, pa.auth, rfl, hn, hp, (forCluster_some hpa).1, allowed_entitled hal, hc⟩
+                exact ⟨id, sr, pa.auth, rfl, hn, hp, (forCluster_some hpa).1, allowed_entitled hal agg_authz, hc⟩
             · cases hrel
 
 /-- **sds_release_sound.** For every proxy, requested name set, secret store (world), consistent cache state
@@ -209,6 +209,7 @@ theorem sds_release_sound (w : World) (hw : WorldOK w) (p : Proxy) (hp : ProxyOK
       findCluster p.cluster w.clusters = some pc ∧
       ((sr.rtype = .kubernetes ∧ sr.ns = id.ns ∧ pc.authz id.sa id.ns = true) ∨
        (sr.rtype = .gateway ∧ ∃ l, p.refs = some l ∧ name ∈ l)) ∧
+      hasSuffix sr.name cacertSuffix = false ∧
       ∃ cl ∈ w.clusters, (cl.id = p.cluster ∨ cl.id = w.configCluster) ∧
         ∃ d, cl.secrets sr.name sr.ns = some d ∧ extractCertInfo d = some v := by
   have hs := (generate_spec w hw p hp c hc names req).1
@@ -228,7 +229,7 @@ theorem sds_release_sound (w : World) (hw : WorldOK w) (p : Proxy) (hp : ProxyOK
     have hcl2 := (forCluster_some hf).2 cl hcl
     have hrn := (parse_some hparse).1
     obtain ⟨_, _, hkk | hcc | hgg | hii⟩ := parse_some hparse
-    · refine ⟨Or.inl ⟨hkk.1, ?_⟩, cl, hcl2.1, by rw [← hkk.2.1]; exact hcl2.2, d, hd, he⟩
+    · refine ⟨Or.inl ⟨hkk.1, ?_⟩, hnca, cl, hcl2.1, by rw [← hkk.2.1]; exact hcl2.2, d, hd, he⟩
       unfold Entitled at hent
       simp only [hkk.1] at hent
       refine ⟨hent.1, ?_⟩
@@ -236,7 +237,7 @@ theorem sds_release_sound (w : World) (hw : WorldOK w) (p : Proxy) (hp : ProxyOK
       | inl hh => rw [hnca] at hh; cases hh
       | inr hh => exact hh
     · exact absurd hcc.1 hncm
-    · refine ⟨Or.inr ⟨hgg.1, ?_⟩, cl, hcl2.1, Or.inr (by
+    · refine ⟨Or.inr ⟨hgg.1, ?_⟩, hnca, cl, hcl2.1, Or.inr (by
         cases hcl2.2 with
         | inl hh => rw [hh, hgg.2.1]
         | inr hh => exact hh), d, hd, he⟩
@@ -261,7 +262,7 @@ theorem never_across_namespaces (w : World) (hw : WorldOK w) (p : Proxy) (hp : P
     (hnoref : ∀ l, p.refs = some l → name ∉ l) :
     ∃ sr, parseResourceName name id.ns p.cluster w.configCluster = some sr ∧ sr.ns = id.ns ∧
       ∃ cl ∈ w.clusters, ∃ d, cl.secrets sr.name id.ns = some d ∧ extractCertInfo d = some v := by
-  obtain ⟨id', sr, pc, hv, _, hparse, _, hcase, cl, hcl, _, d, hd, he⟩ :=
+  obtain ⟨id', sr, pc, hv, _, hparse, _, hcase, _, cl, hcl, _, d, hd, he⟩ :=
     sds_release_sound w hw p hp c hc names req o h name v hm hk
   rw [hid] at hv
   cases hv
@@ -270,6 +271,36 @@ theorem never_across_namespaces (w : World) (hw : WorldOK w) (p : Proxy) (hp : P
   | inr hgw =>
     obtain ⟨l, hl, hmem⟩ := hgw.2
     exact absurd hmem (hnoref l hl)
+
+/-- With `PILOT_ENABLE_REMOTE_CREDENTIALS_CONTROLLER=false` a proxy of a remote cluster can never be authorised
+    (`ErrNoAuthController`): it fails closed, and its lookups go to the config cluster only. -/
+theorem remote_disabled_fails_closed {w : World} {id : Str} {a : Agg} (hr : w.remoteCreds = false)
+    (hid : id ≠ w.configCluster) (h : w.forCluster id = some a) (sa ns : Str) :
+    a.authz sa ns = false ∧ ∀ c ∈ a.controllers, c.id = w.configCluster := by
+  unfold World.forCluster at h
+  cases hf : findCluster id w.clusters with
+  | none => rw [hf] at h; cases h
+  | some c =>
+    rw [hf] at h
+    simp only at h
+    split at h
+    · cases h
+    · cases h
+      constructor
+      · simp [Agg.authz, hr, hid]
+      · intro x hx
+        simp only [ownList, hr, List.mem_append] at hx
+        cases hx with
+        | inl hx => simp at hx
+        | inr hx =>
+          unfold cfgList at hx
+          cases hg : findCluster w.configCluster w.clusters with
+          | none => rw [hg] at hx; simp at hx
+          | some k =>
+            rw [hg] at hx
+            simp at hx
+            subst hx
+            exact (findCluster_some hg).2
 
 /-- **unauthorised_gets_no_key.** The "CA only, no RBAC needed" shortcut is decided on the *parsed* name, the same
     field `generate` reads: a proxy whose `(serviceAccount, namespace)` its cluster does not authorise never receives
@@ -330,7 +361,7 @@ theorem cache_lookup_only_authorised (w : World) (c : Cache) (p : Proxy) (names 
           | some ca =>
             rw [hca] at h
             cases h
-            have key : ∀ r ∈ filterAuthorized p id (pa.auth.authz id.sa id.ns)
+            have key : ∀ r ∈ filterAuthorized p id (pa.authz id.sa id.ns)
                 (parseResources names id.ns p.cluster w.configCluster),
                 ∃ n, n ∈ names ∧ parseResourceName n id.ns p.cluster w.configCluster = some r ∧
                   Entitled p id pa.auth r := by
@@ -341,7 +372,7 @@ theorem cache_lookup_only_authorised (w : World) (c : Cache) (p : Proxy) (names 
               unfold parseResources at hmem
               rw [List.mem_filterMap] at hmem
               obtain ⟨n, hn, hp⟩ := hmem
-              exact ⟨n, hn, hp, allowed_entitled hal⟩
+              exact ⟨n, hn, hp, allowed_entitled hal agg_authz⟩
             rcases genLoop_only_authorised w rq pa ca _ _ nv hm with h1 | ⟨r, hr, h2⟩ | ⟨r, hr, h3⟩
             · simp at h1
             · obtain ⟨n, hn, hp, he⟩ := key r hr
